@@ -384,9 +384,30 @@ impl datagram_pipe::Sink for IcmpSink {
             }
         }
 
-        socket
+        // a request that cannot be sent (a TTL of 0, more data than an IP packet holds, an address
+        // the socket may not send to, no route) costs that request only, not the client's stream;
+        // a broken socket is reported by the listening side
+        if let Err(e) = socket
             .send_to(datagram.meta.peer, datagram.ttl, &serialized)
-            .await?;
+            .await
+        {
+            debug!(
+                "Failed to send echo request: peer={} id={} seqno={} ttl={} data_len={} error={}",
+                datagram.meta.peer,
+                echo.identifier,
+                echo.sequence_number,
+                datagram.ttl,
+                echo.data.len(),
+                e
+            );
+            forwarder_shared
+                .listeners
+                .lock()
+                .unwrap()
+                .reply_waiters
+                .remove(echo);
+            return Ok(datagram_pipe::SendStatus::Dropped);
+        }
 
         Ok(datagram_pipe::SendStatus::Sent)
     }
